@@ -29,11 +29,10 @@ func checkC02(r *Run) {
 		"WriteFcall orders maybeTruncate → Marshal → sendmsg → Flush on one fcall value, each later step only on the nil-error edge of the earlier one, so nothing reaches the connection when a step fails",
 		"maybeTruncate partitions exactly on msgmsize(fcall) vs channel.msize: every nil return outside the Tread clause is on an edge implying size<=msize or follows the exact Twrite truncation; every overflow error is on an edge implying size>msize and reports exactly size-msize",
 		"Twrite truncation re-slices Data to len(Data)-(size-msize) (affine identity), guarded by len(Data)>=overflow, and stores the shortened message back",
-		"Tread clamp stores Count' with Count' ≡ msize - msgmsize(empty Rread with the request's tag) (mod 2^32)",
+		"Tread clamp stores Count' with Count' ≡ msize - msgmsize(empty Rread with the request's tag) (mod 2^32); every exit of the Tread clause leaves with count + empty-Rread frame <= msize and count never raised, decided wrap-aware (case split over every wrapping/non-wrapping combination of the uint32 operations, msize in [24, 2^31))",
 		"sendmsg writes a header ≡ len(p)+4 before the body; msgmsize ≡ 4 + codec.Size(fcall)",
 		"no store/copy/append through memory reachable from the caller's fcall (caller's buffer never written)")
 	r.NotDecided = append(r.NotDecided,
-		"the uint32 wrap-around guard `Count < overflow` of the Tread clamp as a value statement",
 		"short/partial writes inside bufio and the connection",
 		"that Codec.Size equals the marshalled length (decided by C01's codec-grammar agreement)")
 	r.Trusted = append(r.Trusted, "bufio.Writer, encoding/binary.Write")
@@ -439,6 +438,118 @@ func c02Tread(r *Run, fa *FA, mt *ssa.Function, fcallParam ssa.Value) {
 			"the rewritten Tread differs from the original in more than Count: "+s.K)
 	}
 	r.Floor("tread-clamp", n, 1, "store of a rewritten MessageTread")
+	c02TreadFit(r, fa, mt, fcallParam)
+}
+
+// c02TreadFit: on every exit of the Tread clause the count that goes out satisfies
+// count + msgmsize(empty Rread) <= msize and is never raised — decided wrap-aware over the uint32 arithmetic
+// (every combination of wrapping / not wrapping of the narrow unsigned operations is a case).
+func c02TreadFit(r *Run, fa *FA, mt *ssa.Function, fcallParam ssa.Value) {
+	// anchors: the asserted Tread message, the measured reply size R, the channel msize M
+	var ta *ssa.TypeAssert
+	var rcall *ssa.Call
+	var msizeLoad ssa.Value
+	eachInstr(mt, func(in ssa.Instruction) {
+		switch x := in.(type) {
+		case *ssa.TypeAssert:
+			if isP9P(x.AssertedType, "MessageTread") && x.CommaOk {
+				ta = x
+			}
+		case *ssa.Call:
+			if calleeName(&x.Call) == "(*p9p.channel).msgmsize" {
+				if nf, ok := x.Call.Args[1].(*ssa.Call); ok && calleeName(&nf.Call) == "p9p.newFcall" {
+					rcall = x
+				}
+			}
+		case *ssa.UnOp:
+			if isLoadOfField(x, "channel", "msize") && msizeLoad == nil {
+				msizeLoad = x
+			}
+		}
+	})
+	if ta == nil || rcall == nil || msizeLoad == nil {
+		r.Undecided("tread-fit", "maybeTruncate: Tread clause anchors", mt.Pos(), "cannot find the Tread assertion, the measured reply size or the msize load")
+		return
+	}
+	msgVal := resultN(ta, 0)
+	okv := resultN(ta, 1)
+	// the local copy of the message and its Count field
+	var msgAlloc *ssa.Alloc
+	for _, rf := range referrers(msgVal) {
+		if st, ok := rf.(*ssa.Store); ok && st.Val == msgVal {
+			msgAlloc, _ = st.Addr.(*ssa.Alloc)
+		}
+	}
+	origCount := func() *Lin {
+		s := fa.Sym(msgVal)
+		return fa.linSym(fa.fieldOf(s, "Count", nil), 0)
+	}
+	nRet := 0
+	for _, ret := range returnsOf(mt) {
+		inClause := false
+		for _, cd := range condsAtInstr(ret) {
+			if nc := normCond(cd); nc.V == okv && nc.Truth {
+				inClause = true
+			}
+		}
+		if !inClause || len(ret.Results) != 1 || !isNilConst(ret.Results[0]) {
+			continue
+		}
+		nRet++
+		// outgoing count: the last store to msg.Count that is followed by fcall.Message = msg, both dominating the return
+		var outVal ssa.Value
+		if msgAlloc != nil {
+			var msgStore *ssa.Store
+			for _, st := range storesToField(mt, fcallParam, "Message") {
+				if instrDominates(st, ret) {
+					msgStore = st
+				}
+			}
+			if msgStore != nil {
+				eachInstr(mt, func(in ssa.Instruction) {
+					st, ok := in.(*ssa.Store)
+					if !ok || !instrDominates(st, msgStore) {
+						return
+					}
+					if f, ok := st.Addr.(*ssa.FieldAddr); ok && f.X == ssa.Value(msgAlloc) && fieldName(f.X.Type(), f.Field) == "Count" {
+						outVal = st.Val
+					}
+				})
+			}
+		}
+		vals := []ssa.Value{rcall, msizeLoad}
+		if outVal != nil {
+			vals = append(vals, outVal)
+		}
+		ok, why, nCases := fa.EntailsWrapAware(ret, vals,
+			func(ev func(ssa.Value) *Lin) []Fact {
+				R, M := ev(rcall), ev(msizeLoad)
+				return []Fact{
+					le(linConst(24), M, "property domain: msize >= 24 (the 9P I/O header)"),
+					le(M, linConst(1<<31-1), "msize fits in 31 bits"),
+					le(linConst(0), R, "frame size of an empty Rread is non-negative"),
+					le(R, linConst(24), "frame size of an empty Rread (11 bytes by the codec grammar) is at most the I/O header size"),
+				}
+			},
+			func(ev func(ssa.Value) *Lin) []*Lin {
+				R, M := ev(rcall), ev(msizeLoad)
+				out := origCount()
+				if outVal != nil {
+					out = ev(outVal)
+				}
+				return []*Lin{out.Add(R).Sub(M), out.Sub(origCount())}
+			})
+		key := "maybeTruncate: Tread leaves with count + empty-Rread frame <= msize, count never raised"
+		if outVal == nil {
+			key = "maybeTruncate: Tread left unchanged only when count + empty-Rread frame <= msize"
+		}
+		if ok {
+			r.Ok("tread-fit", key, ret.Pos(), fmt.Sprintf("%d feasible wrap cases, each entails the goal", nCases))
+		} else {
+			r.Bad("tread-fit", key, ret.Pos(), "a read request can leave with a count whose largest permitted reply exceeds msize: "+why)
+		}
+	}
+	r.Floor("tread-fit", nRet, 2, "exits of the Tread clause")
 }
 
 // ---- (5) sendmsg ------------------------------------------------------------------
